@@ -34,7 +34,7 @@ def run(tier, seed):
         rep.unsupported += info["unsupported"]
         rep.extra.setdefault("paths", 0)
         rep.extra["paths"] += info["paths"]
-        results = solve.discharge(obls, timeout_ms=30000 if tier == "quick" else 90000, cross_check=False)
+        results = solve.discharge(obls, timeout_ms=30000 if tier == "quick" else 90000, cross_check=(tier == "thorough"))
         all_results += results
         rep.add_deductive(results, lambda r: _replay(rep, r))
     rep.add_bounded(run_bounded("c16_bounded.py", tier, seed))
@@ -53,6 +53,8 @@ def run(tier, seed):
         "proof-level for the window helper and the conv/pool validity rules (unbounded integer values, enumerated dimension counts); "
         "layer values (conv, pool, batchnorm, gru, softmax, losses) are a bounded run-time contract against naive formulas, counted separately"
     )
+    if tier == "thorough":
+        rep.run_canaries(['c16_swv', 'c16_valid'])
     return rep.finish(min_obligations=1500)
 
 
